@@ -29,6 +29,8 @@ def run(ctx):
     ar.fresh_part_rule(ctx, 'R9.5')
     ar.index_normalisation_rule(ctx, 'R9.6')
     r98(ctx)
+    from . import findings2 as _f2
+    _f2.partitioning_memory(ctx, 'R9.11')
     r910(ctx)
     ar.mode_params_rule(ctx, 'R9.9')
     r96(ctx, api)
